@@ -4,9 +4,10 @@
 // utils::merge::<ValueIter as Iterator>::next — the k-way merge of sorted value streams through a
 // 50 000-base window of f64 sums.  The property (C15): the output is sorted, non-overlapping, and
 // its value at every base is the sum of the inputs' values at that base; bases are absent where no
-// input has data or the sum is zero.  `next` is cut into four pieces, each under its own contract
-// (A: one section's accumulation into the window, B: run-length encoding, C: insert_into_queue,
-// D: the skeleton of `next` with A, B replaced by calls); interface predicates in spec.rs.
+// input has data or the sum is zero.  `next` is cut into five pieces, each under its own contract
+// (A: one section's accumulation into the window, A': the `for` over the sections with its body
+// replaced by a call of A, B: run-length encoding, C: insert_into_queue, D: the skeleton of `next`
+// with A' and B replaced by calls); interface predicates in spec.rs.  Every piece is proved.
 use vstd::prelude::*;
 use vstd::std_specs::ops::*;
 use vstd::std_specs::convert::FromSpec;
@@ -31,7 +32,7 @@ global size_of usize == 8;
 // =====================================================================================
 //@extract fn bigtools/src/utils/merge.rs next
 //@rule R16
-//@presub /\Afn next\(&mut self\) -> Option<Self::Item> \{.*?vec!\[0(f\d+); DATA_SIZE\];.*?'sections: for \(section, last\) in &mut self\.sections \{[ \t]*\n/ => fn next_section(section: &mut VIter, last: &mut Option<Value>, data: &mut Vec<\1>, current_start: u32, max_data_len0: usize, max_sections0: usize, all_none0: bool, self_error: &mut bool, Ghost(k): Ghost<int>) -> (r: (usize, usize, bool, Option<MergeError>)) {\n
+//@presub /\Afn next\(&mut self\) -> Option<Self::Item> \{.*?vec!\[0(f\d+); DATA_SIZE\];.*?'sections: for \(section, last\) in [^{]*\{[ \t]*\n/ => fn next_section(section: &mut VIter, last: &mut Option<Value>, data: &mut Vec<\1>, current_start: u32, max_data_len0: usize, max_sections0: usize, all_none0: bool, self_error: &mut bool, Ghost(k): Ghost<int>) -> (r: (usize, usize, bool, Option<MergeError>)) {\n
 //@presub /\n[ \t]*\}\s*(?://[^\n]*\s*)*let mut next_sections: Vec<Value>.*\Z/ => \n}
 //@presub /(\*i\s*[-+*]?=[^;\n]*?)[ \t]*\n(\s*\})/ => \1;\n\2 min=0
 //@rule R5
@@ -189,6 +190,135 @@ global size_of usize == 8;
 //@end
 
 // =====================================================================================
+// A'. the iteration of A over the sections: `'sections: for (section, last) in &mut self.sections { .. }`.
+//    Cut from `fn next` by three presubs: everything before the `for` becomes the signature (the loop's
+//    free variables as parameters), the `for` HEADER IS KEPT, its body (= piece A, proved above) is
+//    replaced by one call of `next_section` with this iteration's `(section, last)`, threading the
+//    accumulators and returning at the first error; everything behind the `for`'s closing brace is dropped.
+//    The kept header is then turned into an index loop by unit-local subs (R7 has no `&mut V` / tuple
+//    pattern form): `&mut self.sections` / `self.sections.iter_mut()` -> `for i__ in 0..n__ { let (section,
+//    last) = &mut sections[i__];`; a trailing `.rev()`, `.skip(K)`, `.take(K)` changes the element index /
+//    the index range accordingly (so that such an edit is judged by the invariants below); any other
+//    header is refused.  The contract is the one D uses at its call; nothing in it is assumed any more.
+// =====================================================================================
+//@extract fn bigtools/src/utils/merge.rs next
+//@presub /\Afn next\(&mut self\) -> Option<Self::Item> \{.*?vec!\[0(f\d+); DATA_SIZE\];.*?\n(?=[ \t]*'sections: for\b)/ => fn accumulate_sections(sections: &mut Vec<(VIter, Option<Value>)>, data: &mut Vec<\1>, current_start: u32, max_data_len0: usize, max_sections0: usize, all_none0: bool, self_error: &mut bool) -> (r: (usize, usize, bool, Option<MergeError>, Ghost<Seq<int>>)) {\n
+//@presub /('sections: for [^{]*\{)[ \t]*\n.*?\n([ \t]*)\}\s*(?://[^\n]*\s*)*let mut next_sections: Vec<Value>.*\Z/ => \1\n\2    let sec__ = next_section(section, last, data, current_start, max_data_len, max_sections, all_none, self_error, Ghost(stop_of(pend(*last, *section), current_start as int + DATA_SIZE as int)));\n\2    max_data_len = sec__.0;\n\2    max_sections = sec__.1;\n\2    all_none = sec__.2;\n\2    if let Some(e) = sec__.3 {\n\2        return (max_data_len, max_sections, all_none, Some(e), Ghost(ks));\n\2    }\n\2}\n}
+//@sub /'sections:\s*for \((\w+), (\w+)\) in (?:&mut self\.sections|self\.sections\.iter_mut\(\)) \{/ => let n__ = sections.len();\n for i__ in 0..n__ {\n let (\1, \2) = &mut sections[i__]; min=0
+//@sub /'sections:\s*for \((\w+), (\w+)\) in self\.sections\.iter_mut\(\)\.rev\(\) \{/ => let n__ = sections.len();\n for i__ in 0..n__ {\n let (\1, \2) = &mut sections[n__ - 1 - i__]; min=0
+//@sub /'sections:\s*for \((\w+), (\w+)\) in self\.sections\.iter_mut\(\)\.skip\(\s*(\w+)\s*\) \{/ => let n__ = sections.len();\n for i__ in (if (\3) as usize <= n__ { (\3) as usize } else { n__ })..n__ {\n let (\1, \2) = &mut sections[i__]; min=0
+//@sub /'sections:\s*for \((\w+), (\w+)\) in self\.sections\.iter_mut\(\)\.take\(\s*(\w+)\s*\) \{/ => let n__ = sections.len();\n for i__ in 0..(if (\3) as usize <= n__ { (\3) as usize } else { n__ }) {\n let (\1, \2) = &mut sections[i__]; min=0
+//@sub /'sections:\s*for [^{]*\{/ => unknown_iteration_over_sections__refused();\n let n__ = sections.len();\n for i__ in 0..n__ {\n let (section, last) = &mut sections[i__]; min=0
+//@sig
+    requires
+        [[L: fold/pre]]
+        old(data)@.len() == DATA_SIZE,
+        all_sec_ok(pends(old(sections)@), current_start as int),
+        max_sections0 as int + total_len(pends(old(sections)@)) < usize::MAX as int,
+    ensures
+        [[L: fold/window_size_kept]]
+        final(data)@.len() == DATA_SIZE,
+        [[L: fold/max_data_len_stays_within_window]]
+        max_data_len0 <= DATA_SIZE ==> r.0 <= DATA_SIZE,
+        [[L: fold/touched_span_fits_u32]]
+        current_start as int + max_data_len0 as int <= u32::MAX as int ==> current_start as int + r.0 as int <= u32::MAX as int,
+        [[L: fold/error_sets_flag]]
+        r.3 is Some ==> *final(self_error),
+        [[L: fold/no_error_no_flag]]
+        r.3 is None ==> *final(self_error) == *old(self_error),
+        [[L: fold/every_section_stops_at_its_first_value_reaching_window_end]]
+        r.3 is None ==> stops_ok(pends(old(sections)@), r.4@, current_start as int + DATA_SIZE as int),
+        [[L: fold/every_section_keeps_what_lies_behind_its_stop]]
+        r.3 is None ==> pends(final(sections)@) == next_pends(pends(old(sections)@), r.4@),
+        [[L: fold/pending_lies_beyond_window_in_every_section]]
+        r.3 is None ==> all_sec_ok(pends(final(sections)@), current_start as int + DATA_SIZE as int),
+        [[L: fold/window_is_fold_over_all_sections_in_order]]
+        r.3 is None ==> c64(final(data)@) == win_data(pends(old(sections)@), r.4@, old(sections)@.len() as int, c64(old(data)@), current_start as int),
+        [[L: fold/max_data_len_is_fold_over_all_sections]]
+        r.3 is None ==> r.0 as int == win_mdl(pends(old(sections)@), r.4@, old(sections)@.len() as int, max_data_len0 as int, current_start as int),
+        [[L: fold/all_none_iff_no_section_saw_a_value]]
+        r.3 is None ==> r.2 == (all_none0 && none_taken(pends(old(sections)@), r.4@)),
+        [[L: fold/max_sections_counts_at_most_all_pending_values]]
+        r.3 is None ==> r.1 as int <= max_sections0 as int + total_len(pends(old(sections)@)),
+//@open
+        let mut max_data_len = max_data_len0;
+        let mut max_sections = max_sections0;
+        let mut all_none = all_none0;
+        let ghost pre = pends(sections@);
+        let ghost cs = current_start as int;
+        let ghost wend = current_start as int + DATA_SIZE as int;
+        let ghost ks = stops_of(pre, wend);
+        let ghost d0 = c64(data@);
+        let ghost m0 = max_data_len0 as int;
+        let ghost s0 = max_sections0 as int;
+        proof {
+            lemma_win_zero(pre, ks, d0, m0, cs);
+            assert(pre.subrange(0, 0) =~= Seq::<Seq<Result<Value, MergeError>>>::empty());
+        }
+//@loop 1
+            invariant
+                [[L: fold/frame]]
+                pre == pends(old(sections)@), cs == current_start as int, wend == cs + DATA_SIZE as int, ks == stops_of(pre, wend),
+                d0 == c64(old(data)@), m0 == max_data_len0 as int, s0 == max_sections0 as int,
+                n__ == old(sections)@.len(), sections@.len() == n__, 0 <= i__ <= n__,
+                all_sec_ok(pre, cs), s0 + total_len(pre) < usize::MAX as int,
+                data@.len() == DATA_SIZE,
+                *self_error == *old(self_error),
+                max_data_len0 <= DATA_SIZE ==> max_data_len <= DATA_SIZE,
+                cs + max_data_len0 as int <= u32::MAX as int ==> cs + max_data_len as int <= u32::MAX as int,
+                [[L: fold/sections_before_i_stopped_without_error]]
+                forall|j: int| 0 <= j < i__ ==> is_stop(#[trigger] pre[j], ks[j], wend) && !stop_is_err(pre[j], ks[j]),
+                [[L: fold/sections_before_i_advanced_to_their_stop]]
+                forall|j: int| 0 <= j < i__ ==> pend((#[trigger] sections@[j]).1, sections@[j].0) == pre[j].subrange(ks[j], pre[j].len() as int),
+                forall|j: int| 0 <= j < i__ ==> sec_ok(pend((#[trigger] sections@[j]).1, sections@[j].0), wend),
+                [[L: fold/sections_from_i_on_untouched]]
+                forall|j: int| i__ <= j < n__ ==> (#[trigger] sections@[j]) == old(sections)@[j],
+                [[L: fold/state_is_fold_over_the_first_i_sections_in_order]]
+                c64(data@) == win_data(pre, ks, i__ as int, d0, cs),
+                max_data_len as int == win_mdl(pre, ks, i__ as int, m0, cs),
+                all_none == (all_none0 && none_taken_upto(pre, ks, i__ as int)),
+                max_sections as int <= s0 + total_len(pre.subrange(0, i__ as int)),
+            decreases
+                [[L: fold/termination]]
+                n__ - i__,
+//@at /let \(\w+, \w+\) = &mut sections\[/ before
+                let ghost before = sections@;
+                let ghost i = i__ as int;
+//@at /let sec__ = next_section\(/ before
+                let ghost p = pend(*last, *section);
+                let ghost k = stop_of(p, wend);
+                let ghost ms_in = max_sections as int;
+                proof {
+                    // this iteration's pair is section i, still as it was at entry: what it has pending is pre[i]
+                    assert(p == pends(before)[i]); [[L: fold/sections_are_visited_in_order_each_once]]
+                    assert(p == pre[i]);
+                    assert(sec_ok(pre[i], cs)); [[L: fold/section_meets_the_input_assumption_for_this_window]]
+                    lemma_stop_of(p, wend);
+                    assert(k == ks[i]); [[L: fold/stop_index_is_the_sections_own]]
+                    lemma_total_len_take(pre, i);
+                    lemma_total_len_mono(pre, i + 1);
+                    assert(ms_in + p.len() < usize::MAX as int); [[L: fold/counter_bound_holds_for_the_next_section]]
+                }
+//@loopend 1
+                proof {
+                    // no error in section i: the state after i + 1 sections
+                    assert(!stop_is_err(p, k)); [[L: fold/loop_goes_on_only_without_error]]
+                    lemma_n_taken_le(p, k, wend);
+                    lemma_win_step(pre, ks, i, d0, m0, cs);
+                    assert(sections@[i] == (*section, *last)); [[L: fold/only_section_i_changes]]
+                    assert(forall|j: int| 0 <= j < n__ && j != i ==> sections@[j] == before[j]);
+                    assert(none_taken_upto(pre, ks, i + 1) == (none_taken_upto(pre, ks, i) && taken(pre[i], ks[i]).len() == 0)); [[L: fold/all_none_step]]
+                }
+//@close
+        proof {
+            assert(pre.subrange(0, n__ as int) =~= pre); [[L: fold/all_sections_visited]]
+            assert(pends(sections@) =~= next_pends(pre, ks));
+            assert(none_taken_upto(pre, ks, n__ as int) == none_taken(pre, ks));
+        }
+        (max_data_len, max_sections, all_none, None, Ghost(ks))
+//@end
+
+// =====================================================================================
 // B. run-length encoding of data[..max_data_len] into next_sections.  Kept text of `next`: from
 //    `let mut next_sections: Vec<Value> = Vec::with_capacity(..)` up to (not including)
 //    `let insert_into_queue = ..`; everything before and after is cut away by the two presubs.
@@ -333,7 +463,7 @@ global size_of usize == 8;
 
 // =====================================================================================
 // D. the skeleton of `next`: head (error flag, draining the buffered values), the window loop with
-//    phase A replaced by `accumulate_sections` (assumed fold of the proved `next_section`), phase B
+//    phase A replaced by `accumulate_sections` (piece A' above: the proved fold of `next_section`), phase B
 //    by the proved `rle`, the closure definition removed (the lifted `insert_into_queue` above is
 //    what the real call `insert_into_queue(&mut next_sections, last)` now resolves to), and the tail.
 //    Ghost history `hist` (added field): windows computed so far, values handed out so far.
@@ -359,7 +489,7 @@ spec fn live_inv(it: ValueIter) -> bool {
 impl ValueIter {
 //@extract method bigtools/src/utils/merge.rs next "Iterator for ValueIter"
 //@rule R16
-//@presub /'sections: for \(section, last\) in &mut self\.sections \{.*?\n(?=[ \t]*let mut next_sections: Vec<Value>)/ => let acc = accumulate_sections(&mut self.sections, &mut data, current_start, max_data_len, max_sections, all_none, &mut self.error);\n            max_data_len = acc.0; max_sections = acc.1; all_none = acc.2;\n            if let Some(e) = acc.3 { return Some(Err(e)); }\n
+//@presub /'sections: for [^{]*\{.*?\n(?=[ \t]*let mut next_sections: Vec<Value>)/ => let acc = accumulate_sections(&mut self.sections, &mut data, current_start, max_data_len, max_sections, all_none, &mut self.error);\n            max_data_len = acc.0; max_sections = acc.1; all_none = acc.2;\n            if let Some(e) = acc.3 { return Some(Err(e)); }\n
 //@presub /let mut next_sections: Vec<Value> = Vec::with_capacity.*?\n(?=[ \t]*let insert_into_queue = )/ => let rle_out = rle(&data, max_data_len, current_start, max_sections);\n            let mut next_sections: Vec<Value> = rle_out.0;\n
 //@presub /let insert_into_queue = \|.*?\n(?=[ \t]*let last_val = self\.last_val\.take\(\);)/ => ""
 //@rule R5
